@@ -73,7 +73,7 @@ type walker struct {
 	decodes   []decodeRec
 	nvStores  int // NVAR stores seen (any depth of the UEFI tree; nested NVAR stores not counted)
 	nvEntries int
-	nvOverlap int // stores whose last entry grew the GUID table into the entries (tolerated quirk)
+	nvOverlap int // stores whose last entry grew the GUID table into the entries (oracle failure since the table-overlap fix)
 	meTables  int
 }
 
